@@ -1182,11 +1182,13 @@ def tr_cli(plan, inputs, model, stdin=False, subproc=False, wellformed=True, iso
     return t
 
 
-def tr_clicheck(inputs, model='amr', stdin=False, subproc=False, quiet=False):
+def tr_clicheck(inputs, model='amr', stdin=False, subproc=False, quiet=False, extra=()):
     """inputs: list of texts.  --check over all of them; what is wrong with each graph comes from Model.errors.
     quiet: with --quiet nothing is written, the exit status is all there is (a real subprocess: the option closes stdout)."""
     m = _cli_model(model)
     args = {'default': [], 'amr': ['--amr'], 'noop': ['--noop'], 'file': ['--model', '@MODELFILE@']}[model] + ['--check', '--indent=no']
+    # layout and formatting options that come after the check in the pipeline: the offending triples stay the same
+    args = args + list(extra)
     if quiet:
         args, subproc = args + ['--quiet'], True
     t = {'kind': 'check', 'model': model, 'args': args, 'inputs': [], 'outs': [], 'quiet': bool(quiet)}
